@@ -228,6 +228,19 @@ vharness!(b_pow, unwind = 34, |s| {
     } }
 });
 
+vharness!(b_pow_i64, unwind = 7, |s| {
+    // second instantiation Val<i64, f64>: float ^ int with an exponent outside the i32 range is an error value
+    // (an out-of-range power is documented to be reported, not silently promoted), inside it is powi
+    let x = s.f64(); let y = s.i64();
+    let r = e_caret_bin::<i64, f64>(Val::Float(x), Val::Int(y));
+    if y < i32::MIN as i64 || y > i32::MAX as i64 {
+        assert!(matches!(r, Val::Error(_)), "C16 ^: float ^ int with an exponent that does not fit i32 is an error value");
+    } else {
+        assert!(matches!(&r, Val::Float(v) if same_f(*v, x.powi(y as i32))), "C16 ^: float ^ int is powi");
+    }
+    core::mem::forget(r);
+});
+
 vharness!(b_atan2, unwind = 7, |s| {
     for ka in 0..SCALAR_KINDS { for kb in 0..SCALAR_KINDS {
         let a = mk(s, ka); let b = mk(s, kb);
@@ -593,7 +606,7 @@ fn with_kind<K: Fn(V) -> V>(v: V, arrays: bool, k: K) -> V {
 
 registry!("u7",
     b_add, b_sub, b_mul, b_div, b_min, b_max, b_rem, b_bitwise_or, b_bitwise_and, b_bitwise_xor, b_left_shift, b_right_shift,
-    b_pow, b_atan2, b_and_or, cmp_eq_ord, if_else, unary_plus_log_consts, conv_to_bool,
+    b_pow, b_pow_i64, b_atan2, b_and_or, cmp_eq_ord, if_else, unary_plus_log_consts, conv_to_bool,
     u_sin, u_cos, u_tan, u_asin, u_acos, u_atan, u_sinh, u_cosh, u_tanh, u_asinh, u_acosh, u_atanh, u_floor, u_ceil, u_trunc,
     u_fract, u_exp, u_sqrt, u_cbrt, u_ln, u_log2, u_log10, u_round, u_swap_bytes, u_to_le, u_to_be,
     u_abs, u_signum, u_minus, u_fact, u_cast_to_int, u_cast_to_float, conv_to_int_float,
